@@ -28,7 +28,8 @@ Proof. exact (lex_word_sound IDENT _ _ _ _ _ C17_trie_check C17_opnames_check). 
 Theorem C17_keyword_only_if : forall o w k, lex_word true o w = Some k -> k <> IDENT ->
   exists r, In r kw_effective /\ r_word r = w /\ gate_eval o (r_gate r) = true /\ r_kind r = k.
 Proof.
-  intros o w k H Hk. rewrite C17_all_words in H. inversion H as [H0].
+  intros o w k H Hk. rewrite C17_all_words in H.
+  assert (H0 : kw_spec true o w = k) by congruence.
   apply (spec_keyword IDENT kw_effective o w k); [exact H0 | exact Hk].
 Qed.
 
@@ -46,7 +47,8 @@ Theorem C17_recognition_off : forall o w k, lex_word false o w = Some k ->
   k = IDENT \/ (snd o O_Translate_operatorNames = true /\
                 exists r, In r opname_oracle /\ r_word r = w /\ r_kind r = k).
 Proof.
-  intros o w k H. rewrite C17_all_words in H. inversion H as [H0]. clear H.
+  intros o w k H. rewrite C17_all_words in H.
+  assert (H0 : kw_spec false o w = k) by congruence. clear H. subst k.
   unfold kw_spec, word_spec. destruct (snd o O_Translate_operatorNames) eqn:E; [|left; reflexivity].
   destruct (N.eqb (spec IDENT opname_oracle o w) IDENT) eqn:E2.
   - left. apply N.eqb_eq. exact E2.
@@ -62,7 +64,7 @@ Proof. vm_compute. reflexivity. Qed.
 (** Outside the listed words the proved table IS the oracle. *)
 Lemma C17_effective_is_oracle_elsewhere : forall r r',
   In (r, r') (combine kw_oracle kw_effective) ->
-  find_finding (r_word r) kw_findings = None -> r' = r.
+  find_finding (r_word r) kw_active = None -> r' = r.
 Proof.
   unfold kw_effective. intros r r'. generalize kw_oracle as l.
   induction l as [|x l IH]; cbn; [tauto|]. intros [H|H] Hn.
